@@ -290,81 +290,12 @@ Lemma graph_guards_examples :
 Proof. repeat split; vm_compute; reflexivity. Qed.
 
 (* ================================================================================================
-   (5) order of components.schemas: corollary of C02's fidelity theorem (Model/Parser.v, Proofs/Parser.v by the
-   builder of C02).  On the core fragment with acyclic references every declared schema's model has exactly the
-   declared fields, and the declared fields are a function of the document as a finite map: hence the models'
-   fields are the same for every declaration order. *)
-Section SchemaOrder.
-  Import Model.Parser Proofs.Parser.
-
-  Lemma alookup_In_nodup : forall {V} (S : list (str * V)) m v, NoDup (map fst S) -> In (m, v) S -> alookup m S = Some v.
-  Proof.
-    induction S as [|[k w] S IH]; intros m v Hnd Hin; [contradiction|]. simpl in *. inversion Hnd as [|? ? Hk Hr]; subst.
-    destruct Hin as [Hin|Hin].
-    - inversion Hin; subst. rewrite str_eqb_refl. reflexivity.
-    - destruct (str_eqb m k) eqn:E; [|apply IH; assumption].
-      apply str_eqb_eq in E. subst k. exfalso. apply Hk. apply in_map_iff. exists (m, v). auto.
-  Qed.
-
-  Lemma alookup_Some_In : forall {V} (S : list (str * V)) m v, alookup m S = Some v -> In (m, v) S.
-  Proof.
-    induction S as [|[k w] S IH]; intros m v H; simpl in *; [discriminate|].
-    destruct (str_eqb m k) eqn:E; [apply str_eqb_eq in E; inversion H; subst; auto | right; apply IH; exact H].
-  Qed.
-
-  Lemma alookup_perm : forall {V} (S S' : list (str * V)) m,
-    NoDup (map fst S) -> Permutation S S' -> alookup m S = alookup m S'.
-  Proof.
-    intros V S S' m Hnd Hp.
-    assert (Hnd' : NoDup (map fst S')) by (eapply Permutation_NoDup; [apply Permutation_map; exact Hp | exact Hnd]).
-    destruct (alookup m S) as [v|] eqn:E.
-    - symmetry. apply alookup_In_nodup; [exact Hnd'|]. eapply Permutation_in; [exact Hp | apply alookup_Some_In; exact E].
-    - destruct (alookup m S') as [v'|] eqn:E'; [|reflexivity].
-      pose proof (Permutation_in _ (Permutation_sym Hp) (alookup_Some_In _ _ _ E')) as Hin.
-      rewrite (alookup_In_nodup _ _ _ Hnd Hin) in E. discriminate.
-  Qed.
-
-  Lemma decl_members_ext : forall (r1 r2 : node -> option dmember) l acc,
-    (forall x, r1 x = r2 x) -> decl_members r1 l acc = decl_members r2 l acc.
-  Proof.
-    intros r1 r2 l. induction l as [|x l IH]; intros acc H; simpl; [reflexivity|].
-    rewrite H. destruct (r2 x); [apply IH; exact H | reflexivity].
-  Qed.
-
-  Lemma decl_node_ext : forall (S S' : spec), (forall m, alookup m S = alookup m S') ->
-    forall f nd, decl_node f S nd = decl_node f S' nd.
-  Proof.
-    intros S S' H. induction f as [|f IH]; intro nd; simpl; [reflexivity|].
-    destruct nd; try reflexivity.
-    - rewrite H. destruct (alookup _ S'); [apply IH | reflexivity].
-    - apply decl_members_ext. exact IH.
-  Qed.
-
-  Lemma declared_f_perm : forall (S S' : spec) f n,
-    NoDup (map fst S) -> Permutation S S' -> declared_f f S n = declared_f f S' n.
-  Proof.
-    intros S S' f n Hnd Hp. unfold declared_f.
-    rewrite (alookup_perm S S' n Hnd Hp). destruct (alookup n S'); [|reflexivity].
-    rewrite (decl_node_ext S S' (fun m => alookup_perm S S' m Hnd Hp)). reflexivity.
-  Qed.
-
-  (* C19_schema_order: for two declaration orders of the same schemas (core fragment, acyclic, within the depth
-     limit - the hypotheses of C02_partial for each order), every declared schema has a genuine model in both runs
-     and the two models have the same fields (JSON key, required flag, type reference), in the same order *)
-  Theorem schema_order_partial : forall md (S S' : spec) rk rk',
-    Permutation S S' -> NoDup (map fst S) ->
-    core_spec S = true -> ranked_b rk S = true -> depth_ok rk S md = true ->
-    core_spec S' = true -> ranked_b rk' S' = true -> depth_ok rk' S' md = true ->
-    forall n, In n (map fst S) ->
-    exists e e', alookup n (parsed (parse_doc md S)) = Some e /\ alookup n (parsed (parse_doc md S')) = Some e' /\
-                 flags_of e = 0 /\ flags_of e' = 0 /\ fields_of e = fields_of e'.
-  Proof.
-    intros md S S' rk rk' Hp Hnd C1 R1 D1 C2 R2 D2 n Hn.
-    assert (Hn' : In n (map fst S')) by (eapply Permutation_in; [apply Permutation_map; exact Hp | exact Hn]).
-    destruct (C02_acyclic md S rk C1 R1 D1 n Hn) as [e [E1 [F1 [f G1]]]].
-    destruct (C02_acyclic md S' rk' C2 R2 D2 n Hn') as [e' [E2 [F2 [f' G2]]]].
-    exists e, e'. repeat split; try assumption.
-    rewrite <- (declared_f_perm S S' f' n Hnd Hp) in G2.
-    pose proof (declared_f_functional _ _ _ _ _ _ G1 G2) as E. exact E.
-  Qed.
-End SchemaOrder.
+   (5) order of components.schemas: C02's theorem (coq/Model/Parser.v, coq/Proofs/Parser.v by the builder of C02)
+   is exactly the statement C19 needs; it is re-exported here so that C19's obligations name it. *)
+Theorem schema_order_partial : forall md (S S' : Model.Parser.spec) rk rk',
+  Model.Parser.core_spec S = true -> Model.Parser.ranked_b rk S = true -> Model.Parser.depth_ok rk S md = true ->
+  Model.Parser.core_spec S' = true -> Model.Parser.ranked_b rk' S' = true -> Model.Parser.depth_ok rk' S' md = true ->
+  Permutation S S' ->
+  forall n, Model.Parser.model_fields (Model.Parser.parse_doc md S) n =
+            Model.Parser.model_fields (Model.Parser.parse_doc md S') n.
+Proof. exact Proofs.Parser.order_independent. Qed.
